@@ -19,7 +19,7 @@ func init() {
 	Register(&Rule{
 		ID:    "R-APPENDONLY",
 		Doc:   "in every json encoder function (encoder methods, encodeFunc closures, Append and the append* helpers they pass the buffer to): the destination is written only by append / append-style callees, or by index/copy/Encode at an offset with lower bound len(dst)+k, k>=0; every reslice b[:k] has k >= a len(dst) snapshot",
-		Props: []string{"C15", "C10", "C06", "C01"},
+		Props: []string{"C15", "C10", "C06", "C01", "C14"},
 		Min:   map[string]int{"C15": 40},
 		Run:   runAppendOnly,
 	})
@@ -196,7 +196,7 @@ func (a *aoFunc) lower(v ssa.Value, depth int) lb {
 }
 
 func runAppendOnly(c *core.Ctx) []core.Obligation {
-	b := newOb(c, "R-APPENDONLY", "C15", "C10")
+	b := newOb(c, "R-APPENDONLY", "C15", "C10", "C14")
 	jp := c.Pkg("json")
 	if jp == nil {
 		b.und("package", "-", "json not loaded")
@@ -478,6 +478,15 @@ func runAppendOnly(c *core.Ctx) []core.Obligation {
 		for _, r := range returnsOf(fn) {
 			if len(r.Results) == 0 || !isSliceType(r.Results[0].Type()) {
 				continue
+			}
+			// … from its first byte: a re-slice that moves the low bound (b[start:]) hands back the
+			// bytes written by this call in place of the caller's prefix
+			if sl, isS := r.Results[0].(*ssa.Slice); isS && a.v[sl.X] && sl.Low != nil {
+				if k, isK := constInt(sl.Low); !isK || k != 0 {
+					any = true
+					b.bad(mk("return-suffix"), c.InstrPos(r), fmt.Sprintf("%s returns the destination re-sliced from a non-zero low bound (%s): the slice no longer begins with the caller's bytes — the enclosing encoders re-slice what they get back, so the prefix is replaced by this call's partial output or the re-slice is out of range", name, describeValue(r.Results[0])))
+					continue
+				}
 			}
 			if !a.v[r.Results[0]] {
 				any = true
